@@ -27,6 +27,12 @@ class Config:
 _CTX = {}
 
 
+class TransformViolation(Exception):
+    def __init__(self, msg, detail=""):
+        Exception.__init__(self, msg)
+        self.detail = detail
+
+
 def tuples_text(ts):
     return sorted("\t".join(to_text(v) for v in t) for t in ts)
 
@@ -35,14 +41,14 @@ def edb_text(db):
     return {r: ["\t".join(to_text(v) for v in t) for t in ts] for r, ts in db.items()}
 
 
-def _exec(cfg, dl, exe, facts_dir, out_dir, timeout):
+def _exec(cfg, dl, exe, facts_dir, out_dir, timeout, shared=None):
     env = None
     if cfg.env:
         env = dict(os.environ)
         env.update(cfg.env)
     if cfg.mode == "interp":
         binary = cfg.binary or SOUFFLE
-        cmd = [binary, "--no-preprocessor", "-w", "-F", facts_dir, "-D", out_dir, "-j", str(cfg.jobs), *cfg.extra, dl]
+        cmd = [binary, "--no-preprocessor", "-w", "-F", facts_dir, "-D", out_dir, "-j", str(cfg.jobs), *[x.replace("{out}", out_dir).replace("{shared}", shared or out_dir) for x in cfg.extra], dl]
     else:
         cmd = [exe, "-F", facts_dir, "-D", out_dir, "-j", str(cfg.jobs), *cfg.runtime_extra]
     os.makedirs(out_dir, exist_ok=True)
@@ -52,13 +58,21 @@ def _exec(cfg, dl, exe, facts_dir, out_dir, timeout):
     return rc, so, se
 
 
+def ref_outputs(case, db):
+    """expected contents of the case's output relations according to the reference model"""
+    if case.ref_prog is not None:
+        full = ref.evaluate(case.ref_prog, db)
+        return {n: full[case.ref_map[n]] for n in case.outputs()}
+    full = ref.evaluate(case.prog, db)
+    return {n: full[n] for n in case.outputs()}
+
+
 def _ref_for(case, db, cache):
     key = (case.cid, id(db))
     if key in cache:
         return cache[key]
     try:
-        full = ref.evaluate(case.prog, db)
-        res = {n: full[n] for n in case.outputs()}
+        res = ref_outputs(case, db)
     except Undefined as e:
         res = ("undefined", str(e))
     cache[key] = res
@@ -86,12 +100,17 @@ def _job(arg):
             exe = ctx["exes"].get((bi, cfg.mode, cfg.extra, cfg.binary))
             if cfg.mode != "interp" and exe is None:
                 continue    # build failed; reported by the build phase
-            rc, so, se = _exec(cfg, dl, exe, facts_dir, out_dir, ctx["timeout"])
+            shared = os.path.join(wd, "out", "b%d_d%s_shared" % (bi, di))
+            os.makedirs(shared, exist_ok=True)
+            rc, so, se = _exec(cfg, dl, exe, facts_dir, out_dir, ctx["timeout"], shared)
             if rc != 0:
                 out["fail"].append((ci, rc, se[-1500:]))
                 shutil.rmtree(out_dir, ignore_errors=True)
                 continue
             merged = ctx["merged"][bi]
+            if ctx.get("post_run") is not None:
+                for cid, msg in ctx["post_run"](batch, db, cfg, out_dir, shared):
+                    out["mismatch"].append((cid, ci, "<post>", msg, None, None))
             for case in batch:
                 cdb = db if case.edb is None else case.edb
                 exp = _ref_for(case, cdb, refcache)
@@ -106,8 +125,13 @@ def _job(arg):
                     except ParseError as e:
                         out["mismatch"].append((case.cid, ci, rel, "unreadable output: %s" % e, None, None))
                         continue
+                    oracle = ctx.get("oracle")
                     if dups:
                         out["mismatch"].append((case.cid, ci, rel, "duplicate tuples in output", tuples_text(exp[rel]), tuples_text(got)))
+                    elif oracle is not None:
+                        msg = oracle(case, cdb, rel, got, exp[rel])
+                        if msg:
+                            out["mismatch"].append((case.cid, ci, rel, msg, tuples_text(exp[rel]), tuples_text(got)))
                     elif got != exp[rel]:
                         out["mismatch"].append((case.cid, ci, rel, "differs from reference model", tuples_text(exp[rel]), tuples_text(got)))
                     if exp[rel]:
@@ -117,6 +141,7 @@ def _job(arg):
             shutil.rmtree(out_dir, ignore_errors=True)
     except Exception:
         out["fail"].append((-1, "exception", traceback.format_exc()[-3000:]))
+    shutil.rmtree(os.path.join(wd, "out", "b%d_d%s_shared" % (bi, di)), ignore_errors=True)
     return out
 
 
@@ -185,11 +210,11 @@ def replay_obj(case, db, cfg, expected, actual, note):
     cdb = db if case.edb is None else case.edb
     return {"kind": "dl", "family": case.family, "case": case.desc, "program": print_program(case.prog),
             "facts": edb_text({n: cdb.get(n, ()) for n, r in case.prog.rels.items() if r.is_input}),
-            "outputs": case.outputs(), "config": cfg.to_json(), "expected": expected, "actual": actual, "note": note}
+            "outputs": case.outputs(), "config": cfg.to_json(), "expected": expected, "actual": actual, "note": note, "tags": list(case.tags)}
 
 
 def differential(rep, cases, dbs, configs, name, batch_size=150, timeout=120, deadline=None, classify=None,
-                 config_filter=None, on_reject="count"):
+                 config_filter=None, on_reject="count", oracle=None, text_transform=None, post_run=None):
     """Run every case on every db under every config; compare with the reference model.
     classify(case, db, cfg, rel, why) -> known-finding entry or None."""
     global _CTX
@@ -198,8 +223,14 @@ def differential(rep, cases, dbs, configs, name, batch_size=150, timeout=120, de
     batches = list(chunks(cases, batch_size))
     merged = [merge_programs([c.prog for c in b]) for b in batches]
     for bi, m in enumerate(merged):
+        text = print_program(m)
+        if text_transform is not None:
+            try:
+                text = text_transform(bi, text, wd)
+            except TransformViolation as e:
+                rep.violation(str(e), {"kind": "dl-transform", "program": print_program(m), "detail": e.detail})
         with open(os.path.join(wd, "b%d.dl" % bi), "w", encoding="latin-1") as f:
-            f.write(print_program(m))
+            f.write(text)
     # facts
     if dbs:
         rels = {}
@@ -221,7 +252,7 @@ def differential(rep, cases, dbs, configs, name, batch_size=150, timeout=120, de
                     if r.is_input:
                         run.write_facts(fd, n, c.edb.get(n, ()))
     _CTX = {"batches": batches, "dbs": dbs, "configs": configs, "workdir": wd, "merged": merged, "timeout": timeout,
-            "exes": {}, "config_filter": config_filter}
+            "exes": {}, "config_filter": config_filter, "oracle": oracle, "post_run": post_run}
     by_id = {c.cid: c for c in cases}
 
     # ---- preflight: every batch must be accepted by souffle (find and drop rejected cases)
@@ -302,7 +333,7 @@ def differential(rep, cases, dbs, configs, name, batch_size=150, timeout=120, de
             undef = False
             for c in batches[bi]:
                 try:
-                    ref.evaluate(c.prog, db if c.edb is None else c.edb)
+                    ref_outputs(c, db if c.edb is None else c.edb)
                 except Undefined:
                     undef = True
                     break
@@ -321,7 +352,7 @@ def differential(rep, cases, dbs, configs, name, batch_size=150, timeout=120, de
                 if rc1 != 0:
                     found = True
                     try:
-                        exp = ref.evaluate(c.prog, db if c.edb is None else c.edb)
+                        exp = ref_outputs(c, db if c.edb is None else c.edb)
                     except Undefined:
                         continue   # evaluation error outside the defined domain (e.g. division by zero): not a violation
                     kf = classify(c, db, cfg, None, "exit") if classify else None
@@ -346,21 +377,37 @@ def differential(rep, cases, dbs, configs, name, batch_size=150, timeout=120, de
             if kf:
                 rep.known_finding(kf, c.desc)
                 continue
+            if rel == "<post>":
+                rep.violation("%s under %s: %s" % (c.desc, cfg.name, why),
+                              {"kind": "dl-post", "program": print_program(c.prog), "facts": edb_text(db if c.edb is None else c.edb), "config": cfg.to_json(), "why": why})
+                nmis += 1
+                continue
             # confirm on the single-case program
             rc1, r1, se1 = run_single(c, db, cfg, wd)
             cdb = db if c.edb is None else c.edb
-            exp = ref.evaluate(c.prog, cdb)
-            single_bad = rc1 != 0 or any(r1[n][0] != exp[n] or r1[n][1] for n in c.outputs())
+            exp = ref_outputs(c, cdb)
+
+            def differs(res, expected, thedb):
+                for n in c.outputs():
+                    if res[n][1]:
+                        return True
+                    if oracle is not None:
+                        if oracle(c, thedb, n, res[n][0], expected[n]):
+                            return True
+                    elif res[n][0] != expected[n]:
+                        return True
+                return False
+            single_bad = rc1 != 0 or differs(r1, exp, cdb)
             if single_bad:
                 def still_bad(trial):
                     try:
-                        e2 = ref.evaluate(c.prog, trial)
+                        e2 = ref_outputs(c, trial)
                     except Undefined:
                         return False
                     rc2, r2, _ = run_single(c, trial, cfg, wd)
-                    return rc2 != 0 or any(r2[n][0] != e2[n] or r2[n][1] for n in c.outputs())
+                    return rc2 != 0 or differs(r2, e2, trial)
                 mdb = minimise_db(c, cdb, cfg, wd, still_bad) if c.edb is None else cdb
-                e2 = ref.evaluate(c.prog, mdb)
+                e2 = ref_outputs(c, mdb)
                 rc2, r2, se2 = run_single(c, mdb, cfg, wd)
                 act = {n: tuples_text(r2[n][0]) for n in c.outputs()} if r2 else None
                 rep.violation("%s under %s: %s (%s)" % (c.desc, cfg.name, why, rel),
@@ -404,8 +451,9 @@ def _preflight_single(arg):
 
 # ------------------------------------------------------------------ replay of a stored dl violation
 
-def replay_dl(obj, workname="replay"):
-    """Re-execute a stored replay without the explorer. Returns (violates: bool, observation: str)."""
+def replay_dl(obj, workname="replay", judge=None):
+    """Re-execute a stored replay without the explorer. Returns (violates: bool, observation: str).
+    judge(rel, got_lines, expected_lines, obj) -> bool (bad) replaces the equality comparison."""
     d = fresh_dir("replay", workname)
     dl = os.path.join(d, "case.dl")
     with open(dl, "w", encoding="latin-1") as f:
@@ -441,7 +489,10 @@ def replay_dl(obj, workname="replay"):
             if lines and lines[-1] == "":
                 lines.pop()
         obs[rel] = sorted(lines)
-        if sorted(lines) != sorted(obj["expected"][rel]):
+        if judge is not None:
+            if judge(rel, lines, obj["expected"][rel], obj):
+                bad = True
+        elif sorted(lines) != sorted(obj["expected"][rel]):
             # compare as text; expected was produced by to_text which is souffle's canonical print form for ints/symbols
             bad = True
     return bad, json.dumps(obs, sort_keys=True)
